@@ -615,6 +615,10 @@ pub fn context_programs() -> Vec<(&'static str, String, String, bool)> {
     add("argument-less:body-changes-what-it-tests", ".macro once\n.ifndef once_done\n.define once_done\n.dw 0x1111\n.else\n.dw 0x2222\n.endif\n.endm\nonce\nonce\nonce\n", ".dw 0x1111\n.dw 0x2222\n.dw 0x2222\n", false);
     add("argument-less:org-in-body-from-different-segments", ".macro at8\n.org 8\n.endm\nnop\nat8\nx: nop\n.eseg\nat8\ny: .db 1\n.cseg\n.dw x, y\n", "nop\n.org 8\nx: nop\n.eseg\n.org 8\ny: .db 1\n.cseg\n.dw x, y\n", false);
     add("argument-less:uses-a-set-variable", ".set cnt = 0\n.macro next\n.set cnt = cnt + 1\n.dw cnt\n.endm\nnext\nnext\nnext\n", ".set cnt = 0\n.set cnt = cnt + 1\n.dw cnt\n.set cnt = cnt + 1\n.dw cnt\n.set cnt = cnt + 1\n.dw cnt\n", false);
+    // one-line bodies called in a row: every expanded item comes from the same body line
+    add("argument-less:one-line-pc-body-called-in-a-row", ".macro spin\nrjmp pc\n.endm\nspin\nspin\nspin\n.dw pc\nspin\n", "rjmp pc\nrjmp pc\nrjmp pc\n.dw pc\nrjmp pc\n", false);
+    add("one-line-pc-body-with-argument-called-in-a-row", ".macro skip\nrjmp pc+@0\n.endm\nskip 1\nskip 1\nskip 2\nnop\nskip 0\nskip 0\n", "rjmp pc+1\nrjmp pc+1\nrjmp pc+2\nnop\nrjmp pc+0\nrjmp pc+0\n", false);
+    add("one-line-data-pc-body-called-in-a-row", ".macro mark\n.dw pc, @0\n.endm\nmark 1\nmark 2\nmark 3\n.eseg\nmark 4\nmark 5\n", ".dw pc, 1\n.dw pc, 2\n.dw pc, 3\n.eseg\n.dw pc, 4\n.dw pc, 5\n", false);
     add("argument-less:pc-in-body", ".macro here\n.dw pc\nrjmp pc\n.endm\nhere\nnop\nhere\n.org 0x20\nhere\n", ".dw pc\nrjmp pc\nnop\n.dw pc\nrjmp pc\n.org 0x20\n.dw pc\nrjmp pc\n", false);
     // when a conditional of the body is decided: at the call, like every other line of the body
     add("timing:define-after-first-call", ".macro m\n.ifdef F\nnop\n.else\nret\n.endif\n.endm\nm\n.define F\nm\n", ".ifdef F\nnop\n.else\nret\n.endif\n.define F\n.ifdef F\nnop\n.else\nret\n.endif\n", false);
